@@ -2232,3 +2232,130 @@ func c10R9(c *Ctx, r *Report) {
 	r.Check(ok, rule, fn.Name(), "a number token with an exponent is a float literal", c.pos(cc.Pos()),
 		"the lexer accepts `1e5` as one number token, and the parser calls it an integer literal because it contains no '.': `let a := 1e5;` reaches QBE as the integer \"1e5\" (\"invalid integer literal\"), `let b: f64 = 1e3;` fails with \"cannot use type 'unknown'\"")
 }
+
+// ---- C19.R10: a diagnostic that is located on one path is located on all -------------------------------------
+
+func init() {
+	lateInits = append(lateInits, func() {
+		props["C19"].Quick = append(props["C19"].Quick, c19R10)
+		props["C19"].Explanation += " (R10) a diagnostic variable that receives its source location inside a conditional (`if loc != nil { diag = diag.With…(loc, …) }`) has received one on every path on which it is added to the bag: the same error is not reported with a position for one layout of the file and without one (` --> :1:1`) for another."
+	})
+}
+
+func c19R10(c *Ctx, r *Report) {
+	const rule = "C19.R10"
+	r.Describe(rule, "all packages: for every local diagnostic variable d with an assignment `d = d.With{PrimaryLabel,Label,SecondaryLabel,CodeHint}(…)` nested in `if v != nil` where v is a local declared without a value (nil until assigned), each `….Add(d)` is reached only on paths that passed such an assignment (or an initialisation that already carries a label)")
+	locators := map[string]bool{"WithPrimaryLabel": true, "WithLabel": true, "WithSecondaryLabel": true, "WithCodeHint": true}
+	isLocating := func(info *types.Info, e ast.Expr) bool {
+		hit := false
+		ast.Inspect(e, func(x ast.Node) bool {
+			if cl, ok := x.(*ast.CallExpr); ok {
+				if f := callee(info, cl); f != nil && locators[f.Name()] && f.Pkg() != nil && strings.HasSuffix(f.Pkg().Path(), "internal/diagnostics") {
+					hit = true
+				}
+			}
+			return true
+		})
+		return hit
+	}
+	n := 0
+	for _, p := range c.Pkgs {
+		for _, fn := range c.AllFns(relOf(p.PkgPath)) {
+			info := fn.Info()
+			// candidates: variables assigned a locating call inside an if body
+			cands := map[types.Object]bool{}
+			nilDeclared := map[types.Object]bool{}
+			ast.Inspect(fn.Decl.Body, func(x ast.Node) bool {
+				if vs, ok := x.(*ast.ValueSpec); ok && len(vs.Values) == 0 {
+					for _, nm := range vs.Names {
+						if o := info.Defs[nm]; o != nil {
+							if _, isPtr := o.Type().Underlying().(*types.Pointer); isPtr {
+								nilDeclared[o] = true
+							}
+						}
+					}
+				}
+				return true
+			})
+			walkWithStack(fn.Decl.Body, func(nd ast.Node, stack []ast.Node) bool {
+				as, ok := nd.(*ast.AssignStmt)
+				if !ok || len(as.Lhs) != 1 || len(as.Rhs) != 1 || as.Tok != token.ASSIGN || !isLocating(info, as.Rhs[0]) {
+					return true
+				}
+				o := objOf(info, as.Lhs[0])
+				if o == nil {
+					return true
+				}
+				for _, a := range stack {
+					ifs, ok := a.(*ast.IfStmt)
+					if !ok {
+						continue
+					}
+					// the guard is `v != nil` for a local v declared without a value (`var v *T`): v is nil
+					// unless one of the conditional assignments ran, so the unlocated path is feasible
+					be, ok := isBinOp(ifs.Cond, token.NEQ)
+					if !ok || exprStr(be.Y) != "nil" {
+						continue
+					}
+					if v := objOf(info, be.X); v != nil && nilDeclared[v] {
+						cands[o] = true
+					}
+				}
+				return true
+			})
+			for o := range cands {
+				isAdd := func(nd ast.Node) bool {
+					return nodeCallsPred(nd, func(cl *ast.CallExpr) bool {
+						sel, ok := ast.Unparen(cl.Fun).(*ast.SelectorExpr)
+						return ok && sel.Sel.Name == "Add" && len(cl.Args) == 1 && objOf(info, cl.Args[0]) == o
+					}) != nil
+				}
+				nAdd := 0
+				hits := mustFlow(c.CFG(fn), FlowSpec{
+					Gate: func(nd ast.Node) bool {
+						switch s := nd.(type) {
+						case *ast.AssignStmt:
+							for i, l := range s.Lhs {
+								if objOf(info, l) == o && i < len(s.Rhs) && isLocating(info, s.Rhs[i]) {
+									return true
+								}
+							}
+						case *ast.DeclStmt:
+							ok := false
+							ast.Inspect(s, func(x ast.Node) bool {
+								if vs, isVS := x.(*ast.ValueSpec); isVS {
+									for i, nm := range vs.Names {
+										if info.Defs[nm] == o && i < len(vs.Values) && isLocating(info, vs.Values[i]) {
+											ok = true
+										}
+									}
+								}
+								return true
+							})
+							return ok
+						}
+						return false
+					},
+					Target: func(nd ast.Node) bool {
+						if isAdd(nd) {
+							nAdd++
+							return true
+						}
+						return false
+					},
+				})
+				if nAdd == 0 {
+					continue
+				}
+				n++
+				where := c.pos(fn.Decl.Pos())
+				if len(hits) > 0 && hits[0].Pos.IsValid() {
+					where = c.pos(hits[0].Pos)
+				}
+				r.Check(len(hits) == 0, rule, fn.Name(), "diagnostic "+o.Name()+" is located on every path to the bag", where,
+					"the diagnostic gets its location only inside a conditional and is added to the bag on the other path as well: for some layouts of the source (an empty file, a file of comments only) the same error is printed with ` --> :1:1` and no file name")
+			}
+		}
+	}
+	r.Note("%s: %d diagnostics are located under a nil test of a nil-declared local (expected 0 after D-96; selftest: the reverse of the D-96 repair)", rule, n)
+}
